@@ -602,6 +602,7 @@ class ClientSession:
 
         timer = tm.timer()
         req: ClientRequest | None = None
+        resp: ClientResponse | None = None
         try:
             with timer:
                 # https://www.rfc-editor.org/rfc/rfc9112.html#name-retrying-requests
@@ -894,6 +895,11 @@ class ClientSession:
             if handle:
                 handle.cancel()
                 handle = None
+
+            if resp is not None:
+                # the response is not handed to the caller: nobody else can
+                # close it (and free its connection)
+                resp.close()
 
             if req is not None and req._body is not None:
                 await req._body.close()
